@@ -76,6 +76,8 @@ pub struct ServerState {
     pub fail_writes_after: Option<usize>,
     /// at most this many bytes are accepted per write call
     pub write_chunk: usize,
+    /// refuse the n-th write call from now (0 = the next one) with this error, consuming nothing; later calls work
+    pub fail_write_once: Option<(usize, io::ErrorKind)>,
     // --- transport security
     pub tls: Option<TlsServer>,
     pub tls_identity: usize,
@@ -89,6 +91,8 @@ pub struct ServerState {
     /// decrypted application bytes, in order
     pub plain_in: Vec<u8>,
     pub plain_after_final_reply: usize,
+    /// length of raw_post_tls when the final CredSSP reply (or the blind attacker's reply) was handed to the client
+    pub raw_mark_final: Option<usize>,
     // --- CredSSP / NTLM
     pub nla: NlaState,
     pub nla_cfg: NlaCfg,
@@ -225,6 +229,7 @@ impl ServerState {
             write_log: Vec::new(),
             fail_writes_after: None,
             write_chunk: usize::MAX,
+            fail_write_once: None,
             tls: None,
             tls_identity: 0,
             tls12_only: false,
@@ -240,6 +245,7 @@ impl ServerState {
             final_hook: None,
             challenge_hook: None,
             blind_hook: None,
+            raw_mark_final: None,
         }
     }
 
@@ -370,6 +376,7 @@ impl ServerState {
                     self.plain_after_final_reply = 0;
                     self.nla_log.final_reply_honest = false;
                     self.nla_log.final_reply_sent = Some(reply.clone());
+                    self.raw_mark_final = Some(self.raw_post_tls.len());
                     self.send_ts("ts-blind-reply", &reply);
                     return;
                 }
@@ -407,6 +414,7 @@ impl ServerState {
                 };
                 self.nla = NlaState::ExpectAuthInfo { c2s };
                 self.plain_after_final_reply = 0;
+                self.raw_mark_final = Some(self.raw_post_tls.len());
                 match action {
                     FinalAction::Send(b) => {
                         self.nla_log.final_reply_honest = b == honest_reply;
@@ -628,6 +636,13 @@ impl Duplex {
             if s.bytes_written >= limit {
                 return Err(io::Error::new(io::ErrorKind::BrokenPipe, "injected"));
             }
+        }
+        if let Some((n, kind)) = s.fail_write_once {
+            if n == 0 {
+                s.fail_write_once = None;
+                return Err(io::Error::new(kind, "injected transient refusal"));
+            }
+            s.fail_write_once = Some((n - 1, kind));
         }
         let buf = &buf[..buf.len().min(s.write_chunk.max(1))];
         s.bytes_written += buf.len();
